@@ -113,17 +113,24 @@ func (f *File) TypeText(t *Type) string {
 	case Binary:
 		return "binary"
 	case List:
-		return "list<" + f.TypeText(t.Elem) + ">"
+		return "list<" + f.TypeText(t.Elem) + ">" + annText(t)
 	case Set:
 		s := "set<" + f.TypeText(t.Elem) + ">"
 		if t.Slice {
 			s += " (go.type = \"slice\")"
 		}
-		return s
+		return s + annText(t)
 	case Map:
-		return "map<" + f.TypeText(t.Key) + ", " + f.TypeText(t.Elem) + ">"
+		return "map<" + f.TypeText(t.Key) + ", " + f.TypeText(t.Elem) + ">" + annText(t)
 	}
 	return f.qualify(t.Ref.File, t.Ref.Name)
+}
+
+func annText(t *Type) string {
+	if t.Ann == "" {
+		return ""
+	}
+	return " (" + t.Ann + ")"
 }
 
 func annots(kv ...string) string {
